@@ -387,7 +387,7 @@ func (m *gmachine) query(q string, a, b *sbom.NodeList, ev map[string]any) strin
 	case "Descendants":
 		a.NodeDescendants(node(a, idx).Id, 3)
 	case "ByPurlType":
-		a.GetNodesByPurlType("npm")
+		a.GetNodesByPurlType([]string{"npm", "deb", "golang", "generic"}[idx%4])
 	case "GetNodeByID":
 		a.GetNodeByID(node(a, idx).Id)
 	case "GetNodesByName":
